@@ -35,7 +35,7 @@ class C09:
         return PS.peer_strategy(roles=("orig", "orig", "resp", "s2s"), intervals=True)
 
     def examples(self, tier):
-        return 2500 if tier == "quick" else 50000
+        return 2500 if tier == "quick" else 200000
 
     def enumerate(self, tier):
         return []
